@@ -472,7 +472,7 @@ func run(c Case, r *pbt.R) {
 						if r.Failed() {
 							return
 						}
-						sawFlight = true
+						sawFlight, resumedDirect = true, true // listed finding: the amplification bound no longer applies to this run
 
 						continue
 					}
